@@ -324,6 +324,16 @@ def sec_fragments(rec, two_d=False, patches=None):
             seen.append((comp, key, fr))
             if two_d:
                 rec.fact(f"{tag}/path{pi}/z-summed", fr.summed == ("sum", 0) and len(key) == 2, key="C14/fragments-2d/not-z-projection", detail={"summed": repr(fr.summed)})
+                # every molecule here lies at z >= 10 px: its whole z-extent is projected (no plane clipped by the virtual volume)
+                szl = fr.sl[0] if isinstance(fr.sl, tuple) and len(fr.sl) == 3 else None
+                if szl is None:
+                    rec.fact(f"{tag}/path{pi}/projects-a-3-D-source-slice", False, key="C14/fragments-2d/z-range-clipped", detail={"sl": repr(fr.sl)[:100]})
+                else:
+                    nz = fr.img.shape[0]
+                    st = z3.IntVal(0) if szl.start is None else zi(szl.start)
+                    sp = z3.IntVal(nz) if szl.stop is None else zi(szl.stop)
+                    rec.query(f"{tag}/path{pi}/comp{comp}/all-z-planes-of-the-template-are-projected", h, z3.And(st == 0, sp == nz), key="C14/fragments-2d/z-range-clipped", replay=rp,
+                              names={"scale"} | {f"p{k}{a}" for k in range(3) for a in range(3)})
             rec.fact(f"{tag}/path{pi}/order-and-mode", fr.kw.get("order") == 1 and fr.kw.get("mode") == "constant" and fr.kw.get("cval") == 0.0, key=f"C14/{tag}/interp-args", detail={"kw": repr(fr.kw)})
         rec.fact(f"{tag}/path{pi}/components", sorted(c for c, _, _ in seen) == [0, 0, 1], key=f"C14/{tag}/component-templates", detail={"seen": [c for c, _, _ in seen]})
         # destination offsets: each molecule's own start appears once
@@ -346,6 +356,111 @@ def sec_fragments(rec, two_d=False, patches=None):
                 match.append(z3.And(*conds))
             rec.query(f"{tag}/path{pi}/mol{i}-pasted-at-its-position", h, z3.Or(*match) if match else z3.BoolVal(False), key=f"C14/{tag}/molecule-missing-or-misplaced",
                       replay=rp, names={"scale"} | {f"p{k}{a}" for k in range(3) for a in range(3)})
+
+
+def replay_history(cex):
+    """installed library: simulate, replace(scale / order), simulate again == a simulator built afresh with the new parameters (ImageProvider template)"""
+    from acryo import TomogramSimulator, Molecules, pipe
+
+    bad = []
+    for order in (1, 3):
+        for s1, s2 in ((1.0, 0.5), (0.5, 1.0)):
+            def build(scale):
+                sim = TomogramSimulator(order=order, scale=scale)
+                sim.add_molecules(Molecules([[6.25, 7.0, 5.75], [12.0, 9.5, 10.0]]), pipe.from_gaussian((5.0, 5.0, 5.0), sigma=1.2))
+                return sim
+
+            a = build(s1)
+            shp1 = tuple(int(24 / s1) for _ in range(3))
+            shp2 = tuple(int(24 / s2) for _ in range(3))
+            try:
+                a.simulate(shp1)
+                got = a.replace(scale=s2).simulate(shp2)
+                want = build(s2).simulate(shp2)
+                err = float(np.abs(np.asarray(got) - np.asarray(want)).max())
+            except Exception as e:
+                bad.append({"order": order, "scales": [s1, s2], "raised": repr(e)[:120]})
+                continue
+            if err > 1e-5:
+                bad.append({"order": order, "scales": [s1, s2], "max_abs_diff_vs_fresh_simulator": err})
+    return len(bad) > 0, {"n": len(bad), "examples": bad[:4]}
+
+
+def sec_history(rec, patches=None):
+    """simulate; replace(scale=..) / replace(order=..) / add_molecules; simulate: every pasted fragment comes from the template provided at the scale (and filtered with the order)
+    of the simulator that is simulating"""
+    L = _load(patches)
+    S = L["acryo.simulator"]
+    MC = L["acryo.molecules.core"]
+    rec.encodes("acryo/simulator.py:TomogramSimulator.replace", "acryo/simulator.py:TomogramSimulator._get_image", "acryo/simulator.py:TomogramSimulator._simulate", "acryo/simulator.py:TomogramSimulator.simulate_2d")
+    rec.assume("ImageProvider.provide(scale) returns an image tagged with the scale it was asked for; spline_filter(img, order) returns an image tagged (img, order); affine_transform is recorded; "
+               "_prep_iterators is replaced by a fixed placement (decided in the rule/slices/fragments sections)")
+
+    class Img(np.ndarray):
+        def __new__(cls, tag):
+            o = np.zeros((3, 3, 3), dtype=np.float32).view(cls)
+            o.tag = tag
+            return o
+
+        def __array_finalize__(self, obj):
+            self.tag = getattr(obj, "tag", None)
+
+    class Prov(S.ImageProvider):
+        def __init__(self):
+            pass
+
+        def provide(self, scale):
+            return Img(("provided", scale))
+
+        __call__ = provide
+
+    used = []
+
+    def fake_affine(img, mtx, **kw):
+        used.append((getattr(img, "tag", None), kw.get("order")))
+        return np.zeros((3, 3, 3), dtype=np.float32)
+
+    S.affine_transform = fake_affine
+    S.spline_filter = lambda img, order=3, mode="constant", **k: Img(("filtered", getattr(img, "tag", None), order))
+    # where the fragment goes is decided in the other sections: here the placement is fixed so that only the provenance of the template varies
+    S._prep_iterators = lambda mol, shape, scale: (np.array([[10, 10, 10]], dtype=np.int32), np.array([[13, 13, 13]], dtype=np.int32), [np.eye(4, dtype=np.float32)])
+    s1, s2 = real("scale"), real("scale2")
+    hyps = [s1.e > 0, s2.e > 0, s1.e != s2.e]
+    P = [[5, 5, 5]]
+    for o1, o2, two_d in ((3, 3, False), (1, 3, False), (3, 1, False)):
+        tag = f"history[order {o1}->{o2},{'2d' if two_d else '3d'}]"
+
+        def run():
+            sim = S.TomogramSimulator(order=o1, scale=s1)
+            sim.add_molecules(MC.Molecules(to_symarray(P), rotation.SymRotation([list(rotation.R30[9])])), Prov(), name="A")
+            del used[:]
+            (sim.simulate_2d((40, 40)) if two_d else sim.simulate((40, 40, 40)))
+            first = list(used)
+            sim2 = sim.replace(scale=s2, order=o2)
+            del used[:]
+            (sim2.simulate_2d((40, 40)) if two_d else sim2.simulate((40, 40, 40)))
+            second = list(used)
+            del used[:]
+            (sim.simulate_2d((40, 40)) if two_d else sim.simulate((40, 40, 40)))
+            return first, second, list(used)
+
+        for pi, p in enumerate(explore(run, assumptions=hyps, max_paths=60)):
+            if not p.ok:
+                ok, det = replay_history({})
+                rec.fact(f"{tag}/path{pi}/runs", False, key="C14/history/raises", detail={"exc": repr(p.exc)[:300], **det}, reproduced=ok)
+                continue
+            h = hyps + [p.condition()]
+            for name, calls, sc, od in (("first", p.result[0], s1, o1), ("after-replace", p.result[1], s2, o2), ("original-again", p.result[2], s1, o1)):
+                okn = len(calls) == 1
+                rec.fact(f"{tag}/path{pi}/{name}/one-fragment", okn, key="C14/history/fragment-count", detail={"n": len(calls)}, reproduced=True if okn else replay_history({})[0])
+                if not okn:
+                    continue
+                t, order_used = calls[0]
+                prov = t[1] if (t and t[0] == "filtered") else t
+                okstruct = prov is not None and prov[0] == "provided" and ((t[0] == "filtered" and t[2] == od) if od > 1 else t[0] == "provided") and order_used == od
+                rec.fact(f"{tag}/path{pi}/{name}/template-filtered-for-this-order", bool(okstruct), key="C14/history/order", detail={"tag": repr(t)[:120], "order": order_used}, reproduced=True if okstruct else replay_history({})[0])
+                if prov is not None and prov[0] == "provided":
+                    rec.query(f"{tag}/path{pi}/{name}/template-provided-at-the-simulator's-scale", h, zr(prov[1]) == sc.e, key="C14/history/stale-template", replay=replay_history, names={"scale", "scale2"})
 
 
 def sec_conformance(rec):
@@ -382,7 +497,7 @@ def sec_conformance(rec):
 def sections(tier):
     return [("conformance", "checks.c14", "sec_conformance", {}), ("rule", "checks.c14", "sec_rule", {"n_mol": 1}), ("rule-2mol", "checks.c14", "sec_rule", {"n_mol": 2}),
             ("slices", "checks.c14", "sec_slices", {}), ("fragments-3d", "checks.c14", "sec_fragments", {"two_d": False}),
-            ("fragments-2d", "checks.c14", "sec_fragments", {"two_d": True})]
+            ("fragments-2d", "checks.c14", "sec_fragments", {"two_d": True}), ("history", "checks.c14", "sec_history", {})]
 
 
 _S = "acryo.simulator"
